@@ -9,3 +9,5 @@ for id in "$@"; do
   echo "== $P vs $id: rc=$rc"; echo "$out" | grep -E "^(VIOLATION|  key=|INCONCLUSIVE|KNOWN)" | head -6
 done
 git -C /repo reset -q --hard HEAD; git -C /repo clean -fdq; git -C /repo status --short | head -3
+# rebuild the harness against the restored tree so that bin/check is never left linked with a seeded change
+( . /verif/env.sh; cd /verif/harness && go build -tags verif -o /verif/bin/check ./cmd/check )
